@@ -4,6 +4,8 @@
 //! env:   VERIF_SEED (default 1), VERIF_ROOT (default /verif)
 
 mod c03;
+mod c08;
+mod c13;
 mod c18;
 mod drive;
 mod emitted;
@@ -86,6 +88,8 @@ fn main() {
             "C06" => exec_props::replay(&mut ctx, "C06", &case),
             "C07" => exec_props::replay(&mut ctx, "C07", &case),
             "C15" => exec_props::replay(&mut ctx, "C15", &case),
+            "C08" => c08::replay(&mut ctx, &case),
+            "C13" => c13::replay(&mut ctx, &case),
             "C14" | "C16" | "C17" => static_props::replay(&mut ctx, prop, &case),
             "C18" => c18::replay(&mut ctx, &case),
             _ => {
@@ -105,6 +109,8 @@ fn main() {
         "C06" => exec_props::run(&mut ctx, "C06"),
         "C07" => exec_props::run(&mut ctx, "C07"),
         "C15" => exec_props::run(&mut ctx, "C15"),
+        "C08" => c08::run(&mut ctx),
+        "C13" => c13::run(&mut ctx),
         "C14" => static_props::run_c14(&mut ctx),
         "C16" => static_props::run_c16(&mut ctx),
         "C17" => static_props::run_c17(&mut ctx),
